@@ -216,7 +216,10 @@ pub struct Plan {
 }
 
 pub fn plan(tier: &str) -> Plan {
-    if tier == "thorough" {
+    if tier == "miri" {
+        // interpreted: about four orders of magnitude slower - tiny but still reaching every op and leave path
+        Plan { exhaustive_depth: 2, random_cases: 96, random_len: (10, 40) }
+    } else if tier == "thorough" {
         Plan { exhaustive_depth: 4, random_cases: 40_000, random_len: (20, 400) }
     } else {
         Plan { exhaustive_depth: 3, random_cases: 6_000, random_len: (20, 200) }
